@@ -27,7 +27,7 @@ struct Problem
 {
   int n, m;
   std::string method;     // cholesky | svd | weighted
-  bool precond; bool precond_diag;
+  bool precond; bool precond_diag; bool precond_graded = false;
   LD kappaJ, scale, resid_rel;
   MatL J; VecL Y, W; MatL A; VecL b;     // already rounded to the scalar type
 };
@@ -103,7 +103,18 @@ static void gen_problem(vh::Rng & r, int m, Problem & p, bool is_float)
   p.Y = Y.template cast<S>().template cast<LD>();
   p.W = p.W.template cast<S>().template cast<LD>();
   if (p.precond) {
-    if (p.precond_diag) {
+    p.precond_graded = !p.precond_diag && r.coin(0.4);
+    if (p.precond_graded) {
+      // badly scaled diagonal with small (possibly tiny relative to the largest entry) off-diagonal
+      // couplings: an affine map is still an affine map
+      p.A = MatL::Zero(m, m);
+      for (int i = 0; i < m; ++i) {p.A(i, i) = r.logu(1e-6, 1e12);}
+      for (int i = 0; i < m; ++i) {
+        for (int j = 0; j < m; ++j) {
+          if (i != j && r.coin(0.4)) {p.A(i, j) = r.sign() * std::min(std::fabs((double)p.A(i, i)), std::fabs((double)p.A(j, j))) * r.logu(1e-3, 1.0);}
+        }
+      }
+    } else if (p.precond_diag) {
       p.A = MatL::Zero(m, m); for (int i = 0; i < m; ++i) {p.A(i, i) = r.logu(1e-3, 1e3);}
     } else {
       MatL Ua = random_orthonormal(r, m, m), Va = random_orthonormal(r, m, m);
@@ -127,19 +138,25 @@ static void run_history(vh::Ctx & c, vh::Rng & r, int m, bool is_float)
   LeastSquares<S> reused(m);
   bool use_ctor2 = r.coin(0.3);
   int prev_n = -1; bool shrunk = false, grown = false;
+  typename LeastSquares<S>::Matrix * kept_J = nullptr; typename LeastSquares<S>::Vector * kept_Y = nullptr, * kept_W = nullptr;
+  int kept_n = -1; bool prev_precond = false;
   uint64_t h = vh::hash_doubles({(double)m, (double)is_float, (double)nprob});
   std::string trace;
   for (int k = 0; k < nprob; ++k) {
     Problem p;
     gen_problem<S>(r, m, p, is_float);
-    if (k > 0 && r.coin(0.4)) {p.n = std::max(m, std::min(p.n, prev_n / 2)); p.J = p.J.topRows(p.n).eval(); p.Y = p.Y.head(p.n).eval(); p.W = p.W.head(p.n).eval();}
+    if (k > 0 && kept_n >= m && r.coin(0.25)) {
+      // same size as the previous problem (fresh content)
+      Problem q; gen_problem<S>(r, m, q, is_float);
+      if (q.n >= kept_n) {q.n = kept_n; q.J = q.J.topRows(q.n).eval(); q.Y = q.Y.head(q.n).eval(); q.W = q.W.head(q.n).eval(); p = q;}
+    } else if (k > 0 && r.coin(0.4)) {p.n = std::max(m, std::min(p.n, prev_n / 2)); p.J = p.J.topRows(p.n).eval(); p.Y = p.Y.head(p.n).eval(); p.W = p.W.head(p.n).eval();}
     if (prev_n >= 0 && p.n < prev_n) {shrunk = true;}
     if (prev_n >= 0 && p.n > prev_n) {grown = true;}
     prev_n = std::max(prev_n, p.n);
     h = vh::hash_add(h, (double)p.n); h = vh::hash_add(h, (double)p.J(0, 0));
     trace += (k ? "," : "") + p.method + ":" + std::to_string(p.n) + (p.precond ? "p" : "");
     c.cat("method_" + p.method);
-    if (p.precond) {c.cat(p.precond_diag ? "precond_diagonal" : "precond_general");}
+    if (p.precond) {c.cat(p.precond_graded ? "precond_graded_nearly_diagonal" : p.precond_diag ? "precond_diagonal" : "precond_general");}
 
     // ---- oracle (weighted problem if the method is the weighted one)
     MatL Jw = p.J; VecL Yw = p.Y;
@@ -155,17 +172,30 @@ static void run_history(vh::Ctx & c, vh::Rng & r, int m, bool is_float)
           {"sigma_min_JtJ", (double)(smin * smin)}, {"sigma_max_JtJ", (double)(smax * smax)}};
       };
     if (!(cond < 1e6L)) {c.skip("problem:cond_ge_1e6_outside_quantifier"); continue;}
-    bool vacuous = 16 * eps * cond >= 1e-2L;
+    // a conditioning-aware tolerance of up to 10 % still separates rounding from a dropped or
+    // un-inverted component (errors of tens of percent); beyond that the case cannot discriminate
+    bool vacuous = 16 * eps * cond >= 1e-1L;
 
     // ---- the reused object, buffers poisoned beyond the current size
-    fill(reused, p, true);
+    // API-usage variant: the caller keeps the references returned by getJ()/getY()/getW() across
+    // solves and writes the next same-sized problem through them, calling nothing else in between
+    if (kept_J && p.n == kept_n && !p.precond && !prev_precond) {
+      for (int i = 0; i < p.n; ++i) {
+        for (int j = 0; j < p.m; ++j) {(*kept_J)(i, j) = static_cast<S>(p.J(i, j));}
+        (*kept_Y)(i) = static_cast<S>(p.Y(i)); (*kept_W)(i) = static_cast<S>(p.W(i));
+      }
+      c.cat("problem_written_through_kept_references");
+    } else {
+      fill(reused, p, true);
+    }
+    kept_J = &reused.getJ(); kept_Y = &reused.getY(); kept_W = &reused.getW(); kept_n = p.n; prev_precond = p.precond;
     VecL x = solve(reused, p.method);
     auto wit = [&]() {
         return vh::J().s("history", trace).s("method", p.method).f("n", p.n).f("m", m).f("cond_JtJ", cond)
                .f("scale", p.scale).boolean("precond", p.precond).raw("x", vh::jvec(x)).raw("x_qr_reference", vh::jvec(VecL(p.A * xref + p.b))).str();
       };
     if (!c.expect("finite", x.allFinite(), "nonfinite", params, wit)) {continue;}
-    if (vacuous) {c.skip(is_float ? "float:vacuous_16eps_cond_ge_1e-2" : "double:vacuous"); continue;}
+    if (vacuous) {c.skip(is_float ? "float:vacuous_16eps_cond_ge_1e-1" : "double:vacuous"); continue;}
     c.count("problems_checked");
 
     auto Gof = [&](const VecL & xx) {
@@ -181,6 +211,14 @@ static void run_history(vh::Ctx & c, vh::Rng & r, int m, bool is_float)
       c.expect_le("agrees_with_qr", (x - xref).norm(), xtol, "wrong_minimiser", params, wit);
     } else {
       c.expect_le("affine_preconditioner_applied", (x - (p.A * xref + p.b)).norm(), ptol, "preconditioner_misapplied", params, wit);
+      // component-wise: row i of A x + b carries the rounding of its own entries only
+      VecL xe = p.A * xref + p.b;
+      LD worst = 0;
+      for (int i = 0; i < m; ++i) {
+        LD ti = p.A.row(i).norm() * xtol + 8 * eps * (p.A.row(i).cwiseAbs().dot(xref.cwiseAbs()) + fabsl(p.b(i)));
+        if (ti > 0) {worst = std::max(worst, fabsl(x(i) - xe(i)) / ti);}
+      }
+      c.expect_le("affine_preconditioner_applied.componentwise", worst, 1.0L, "preconditioner_misapplied", params, wit);
     }
     // ---- Cholesky and SVD paths agree (the un-weighted solves leave J, Y untouched)
     if (p.method != "weighted") {
